@@ -330,6 +330,23 @@ def split_param_string(s):
 
 
 # ---------------------------------------------------------------- observation of the real code
+def buffer_script(src):
+    """Every case is analysed the way an editor asks: as the new text of ONE buffer with a path, in a process that
+    has answered for other texts of that buffer just before (the signature must mirror the definition in THIS
+    text whatever was asked before; the call signature time cache is keyed on path + text before the bracket)."""
+    import tempfile
+    global _BUF
+    if _BUF is None or _BUF[0] != os.getpid():
+        # the file is never created: only the name matters
+        base = os.environ.get('VERIF_CACHE_BASE') or tempfile.gettempdir()
+        _BUF = (os.getpid(), os.path.join(base, 'c11buf_%d' % os.getpid(), 'c11_buffer.py'))
+    return jutil.script(src, path=_BUF[1])
+
+
+_BUF = None
+
+
+
 def observe(job):
     """job: dict(defn, form, call, slot, variant, ret) with str names.  Runs jedi and CPython."""
     defn, form, call, slot = job['defn'], job['form'], job['call'], job['slot']
@@ -346,7 +363,7 @@ def observe(job):
     pok, acc = oracle_acceptable(bound_defn(defn, form), call, slot)
     out['pok'], out['acc'] = pok, sorted(acc)
     # jedi side
-    res = jutil.safe(lambda: jutil.script(r['src']).get_signatures(r['line'], r['col']))
+    res = jutil.safe(lambda: buffer_script(r['src']).get_signatures(r['line'], r['col']))
     if res[0] == 'exc':
         out['exc'] = res[2]
         return out
@@ -563,7 +580,7 @@ def wrap_case(case):
     head, src = render_wrapper(case)
     lines = src.split('\n')
     out = {'case': case, 'src': src}
-    res = jutil.safe(lambda: jutil.script(src).get_signatures(len(lines), len(lines[-1])))
+    res = jutil.safe(lambda: buffer_script(src).get_signatures(len(lines), len(lines[-1])))
     if res[0] == 'exc':
         out['exc'] = res[2]
         return out
@@ -635,7 +652,7 @@ def extra_wrapper_case(arg):
     src = head + typed
     lines = src.split('\n')
     out = {'key': key, 'src': src}
-    res = jutil.safe(lambda: [s.to_string() for s in jutil.script(src).get_signatures(len(lines), len(lines[-1]))])
+    res = jutil.safe(lambda: [s.to_string() for s in buffer_script(src).get_signatures(len(lines), len(lines[-1]))])
     if res[0] == 'exc':
         out['exc'] = res[2]
         return out
@@ -685,7 +702,7 @@ def doc_case(arg):
     out = {'shape': shape, 'form': form, 'src': r['src'], 'exp': exp}
 
     def run():
-        s = jutil.script(r['src'])
+        s = buffer_script(r['src'])
         names = s.infer(r['line'], r['name_col'])
         sigs = s.get_signatures(r['line'], r['col'])
         n = names[0]
@@ -1027,7 +1044,7 @@ def run(ctx):
     blocked = 0
     for src in STAR_WRAPPERS:
         lines = src.split('\n')
-        r = jutil.safe(lambda: [s.to_string() for s in jutil.script(src).get_signatures(len(lines), len(lines[-1]))])
+        r = jutil.safe(lambda: [s.to_string() for s in buffer_script(src).get_signatures(len(lines), len(lines[-1]))])
         if r[0] == 'exc' and type(r[1]).__name__ in ('RecursionError', 'AssertionError'):
             blocked += 1
     ctx.coverage['star_forwarding_wrappers_blocked_by_absent_typeshed'] = '%d/%d' % (blocked, len(STAR_WRAPPERS))
